@@ -29,6 +29,17 @@ def gen(rng, tier, index):
     if cfg["flavour"] in ("mqtt", "amqtt"):
         cfg["in_prefix"] = rng.choice(["", "gw-out"])
         cfg["out_prefix"] = rng.choice(["", "gw-in"])
+    if rng.random() < 0.05:
+        # the application brings the link up first and calls start_persistence() a moment later; what arrived in between is the
+        # only news of this lifetime (optionally followed by traffic that changes nothing), then stop and restart
+        cfg["late_persistence"] = [f"21;255;0;0;17;{rng.choice(['2.0', '1.5'])}", "21;1;0;0;6;early", "21;1;1;0;0;20.5"][: rng.randint(1, 3)]
+        ops = []
+        if rng.random() < 0.5:
+            ops.append(["advance", rng.choice([0.5, 10.3, 21.0])])
+        if rng.random() < 0.5:
+            ops.append(["line", "21;1;2;0;0;"])  # a value request: answered, changes nothing
+        ops.append(["restart"])
+        return {"cfg": cfg, "ops": ops}
     ops = netgen.make_ops(rng, cfg["version"], rng.randint(8, 45), WEIGHTS, nodes=(1, 3))
     if rng.random() < 0.3:
         edge = [["line", f"0;255;0;0;18;{rng.choice(['1.5', '2.0', '2.2.0'])}"], ["line", "0;1;0;0;6;gw temp"], ["line", "0;1;1;0;0;21.5"]]
